@@ -369,6 +369,17 @@ def breaking_variants(root):
         nth(lambda s: isinstance(s, ast.Expr) and isinstance(s.value, ast.Yield)), lambda n, src: 'if not node.is_tail(): ' + seg(src, n))
     add(T, 'Traph.paginate_webentity_pages', 'R-PAGINATE', 'prefixes numbered relative to the resume point',
         nth_expr(lambda n: isinstance(n, ast.Call) and ast.unparse(n) == 'range(start_i, len(prefixes))'), 'range(len(prefixes[start_i:]))')
+    add(T, 'Traph.move_prefix_to_webentity', 'R-NO-SWALLOW', 'refusal of the detach swallowed',
+        nth(lambda s: isinstance(s, ast.If) and 'remove_prefix_from_webentity' in ast.unparse(s.test)),
+        lambda n, src: 'try:\n            ' + seg(src, n).replace('\n', '\n    ') + '\n        except TraphException:\n            pass')
+    add(T, 'Traph.get_webentity_most_linked_pages', 'R-WRAPPERS', 'pages_count fed from max_depth',
+        nth_expr(lambda n: isinstance(n, ast.keyword) and n.arg == 'pages_count'), 'pages_count=max_depth')
+    add(T, 'Traph.get_webentities_links', 'R-WRAPPERS', 'include_auto replaced by the direction switch',
+        nth_expr(lambda n: isinstance(n, ast.keyword) and n.arg == 'include_auto'), 'include_auto=out')
+    add(T, 'Traph.get_webentity_pages_iter', 'R-NODE-ALIAS', 'the shared traversal node is collected',
+        nth_expr(lambda n: isinstance(n, ast.Dict)), '{"lru": lru, "node": node}')
+    add(T, 'Traph.get_webentity_pages_iter', 'R-ACCUMULATE', 'final state not yielded',
+        nth(lambda s: isinstance(s, ast.Expr) and isinstance(s.value, ast.Yield) and 'finalize' in ast.unparse(s)), 'state.finalize(pages)')
     return out
 
 
